@@ -367,8 +367,11 @@ inductive Op where
   | newobj (o : Nat) | setvar (o i s : Nat) | getvar (d o i : Nat) | oref (d o : Nat)
   | dest (o : Nat) | cleanup | drop (o : Nat)
   | call (k o st s t : Nat) | rmcall (k : Nat) | sweep
+  | rmcalln (k : Nat)      -- remove_call_out("cbs<k>") by the owner: remove_call_out(ob, fun)
+  | rmall (o : Nat)        -- remove_call_out() by object o: remove_all_call_out(ob)
   | sent (k o s t : Nat) | rmsent (k : Nat)
   | err (s t : Nat) | efun (f s t : Nat)
+  | rest (w : String) | resto (w : String)    -- restore_variable / restore_object of a (damaged) save text, result dropped
   | inp (o s t : Nat) | input
   | sappend (d : Nat) (w : String)            -- v[d] += "w"             (EXTEND_SVALUE_STRING)
   | sjoin (d t : Nat)                         -- v[d] += v[t]            (SVALUE_STRING_JOIN)
@@ -608,6 +611,31 @@ def compile (s : St) (op : Op) : Option (List Mi) :=
     | none => none
   | .rmcall k =>
     if k < nCalls && !isNumRoot s (rCall k) then some [.take (.root (rCall k)), .free, .allocd (-1)] else none
+  | .rmcalln k =>
+    -- by name: only calls with their own function name (st = 1: "cbs<k>") are addressed this way
+    match slotCell s (rCall k) with
+    | some (_, ccell) =>
+      match ccell.items with
+      | [.ptr ob, _] =>
+        let usable := (List.range nObjs).any (fun o => match objCell s o with
+          | some (c, _) => c == ob
+          | none => false)
+        if k < nCalls && ccell.tag == 1 && usable then some [.take (.root (rCall k)), .free, .allocd (-1)] else none
+      | _ => none
+    | none => none
+  | .rmall o =>
+    match objCell s o with
+    | some (c, _) =>
+      some (((List.range nCalls).filter (fun k => match slotCell s (rCall k) with
+          | some (_, ccell) =>
+            -- remove_all_call_out also drops every entry whose owner has been destructed
+            match ccell.items.head? with
+            | some (.ptr ob) => ob == c || (match s.heap[ob]? with
+              | some oc => oc.destructed
+              | none => false)
+            | _ => false
+          | none => false)).flatMap (fun k => [Mi.take (.root (rCall k)), Mi.free, Mi.allocd (-1)]))
+    | none => none
   | .sweep => none   -- handled by `step` (each call is compiled in the state left by the previous one)
   | .sent k o a b =>
     match objCell s o with
@@ -697,6 +725,8 @@ def compile (s : St) (op : Op) : Option (List Mi) :=
     | none => none
   | .err _ _ => none
   | .efun _ _ _ => none
+  | .rest _ => none
+  | .resto _ => none
   | .clones _ => none
   | .unclone _ => none
 
@@ -718,6 +748,8 @@ def step (s : St) (op : Op) : Res :=
     | .error e => .fail e
   | .err _ _ => .ok s
   | .efun _ _ _ => .ok s
+  | .rest _ => .ok s
+  | .resto _ => .ok s
   | op =>
     match compile s op with
     | none => .skip
